@@ -296,26 +296,44 @@ func expiryOutcome(c *ctl, ik []byte, n int) error {
 	return nil
 }
 
-func (w *kvWrap) GetTimestampOracle(ctx context.Context) (uint64, error) {
-	w.c.mu.Lock()
-	st := w.c.tsoState
+// tsoFault advances the engine-timestamp fault state of one GetTimestampOracle call: fail = answer an error, and a slow
+// answer is slept here.
+func tsoFault(c *ctl) (fail bool) {
+	c.mu.Lock()
+	st := c.tsoState
 	switch st {
 	case 1:
-		w.c.tsoState = 2
-		w.c.tsoFired++
+		c.tsoState = 2
+		c.tsoFired++
 	case 2:
-		w.c.tsoState = 0
+		c.tsoState = 0
 	case 3:
-		w.c.tsoState = 1
+		c.tsoState = 1
 	}
-	w.c.mu.Unlock()
+	c.mu.Unlock()
 	switch st {
 	case 1:
-		return 0, errInjected
+		return true
 	case 2:
 		time.Sleep(400 * time.Millisecond)
 	}
+	return false
+}
+
+// GetTimestampOracle: for `metrics-*` engines the engine-timestamp fault is injected by the delFaultStore (directly above
+// the bare engine, BELOW the storage-metrics wrapper, so that the failure travels through the wrapper as a real one would)
+func (w *kvWrap) GetTimestampOracle(ctx context.Context) (uint64, error) {
+	if !w.delBelow && tsoFault(w.c) {
+		return 0, errInjected
+	}
 	return w.inner.GetTimestampOracle(ctx)
+}
+
+func (d *delFaultStore) GetTimestampOracle(ctx context.Context) (uint64, error) {
+	if tsoFault(d.c) {
+		return 0, errInjected
+	}
+	return d.KvStorage.GetTimestampOracle(ctx)
 }
 
 func (w *kvWrap) GetPartitions(ctx context.Context, start, end []byte) ([]storage.Partition, error) {
